@@ -283,8 +283,21 @@ func genHierarchy(r *RNG) *kCase {
 			for k := 0; k < c.Init[1]; k++ {
 				ps = append(ps, fmt.Sprintf("o%d = 1", k))
 			}
-			emit(ind + "  def initialize(" + strings.Join(ps, ", ") + ")")
-			emit(ind + "  end")
+			// initialize is private whatever section it is written in, and `new`
+			// stays public: one class in four writes it below `private`
+			switch r.Intn(8) {
+			case 0:
+				emit(ind + "  private")
+				emit(ind + "  def initialize(" + strings.Join(ps, ", ") + ")")
+				emit(ind + "  end")
+				emit(ind + "  public")
+			case 1:
+				emit(ind + "  private def initialize(" + strings.Join(ps, ", ") + ")")
+				emit(ind + "  end")
+			default:
+				emit(ind + "  def initialize(" + strings.Join(ps, ", ") + ")")
+				emit(ind + "  end")
+			}
 		}
 		for _, me := range c.Static {
 			emit(ind + "  def self." + me.Name)
@@ -676,7 +689,7 @@ func init() {
 			return judgeHierarchy(c, s.BlackBox(), &kc)
 		},
 		Run: func(c *CheckCtx) {
-			c.rule = "generated hierarchies of 1-4 classes (superclass chains of depth 0-3, optionally inside a namespace module and referenced by qualified name) and 0-2 modules that are included or extended; every method returns a literal of a known class; own/inherited/overridden/reopened instance methods, `def self.` and `class << self` class methods, extended modules, initialize with required and optional parameters, private and protected methods (by section keyword followed by `public`, by `private def m`, or by `private :m` after the definition) followed by public methods, reopenings that add and redefine methods; class names drawn from names the shipped configuration declares in other frames (Base, Relation, Table, Error) and fresh names. Probes: dbtp of calls by name on an instance and on the class (expected: the class of the nearest definition in Ruby's lookup order, or an undefined-method diagnostic), explicit-receiver calls of private methods and top-level calls of protected methods (diagnostic), private via implicit receiver and protected via another instance inside the hierarchy (no diagnostic, right type), new with accepted / too few / too many arguments; no diagnostic on any definition row. distinct_nontrivial = distinct programs"
+			c.rule = "generated hierarchies of 1-4 classes (superclass chains of depth 0-3, optionally inside a namespace module and referenced by qualified name) and 0-2 modules that are included or extended; every method returns a literal of a known class; own/inherited/overridden/reopened instance methods, `def self.` and `class << self` class methods, extended modules, initialize with required and optional parameters (one in four written inside a private section or as `private def initialize`), private and protected methods (by section keyword followed by `public`, by `private def m`, or by `private :m` after the definition) followed by public methods, reopenings that add and redefine methods; class names drawn from names the shipped configuration declares in other frames (Base, Relation, Table, Error) and fresh names. Probes: dbtp of calls by name on an instance and on the class (expected: the class of the nearest definition in Ruby's lookup order, or an undefined-method diagnostic), explicit-receiver calls of private methods and top-level calls of protected methods (diagnostic), private via implicit receiver and protected via another instance inside the hierarchy (no diagnostic, right type), new with accepted / too few / too many arguments; no diagnostic on any definition row. distinct_nontrivial = distinct programs"
 			c.assumptions = []string{"module method names are unique per module and differ from class method names, so Ruby's module-vs-superclass order never decides a probe", "private/protected method names are unique per class"}
 			r := c.RNG.Sub(16)
 			n := c.N(300, 8000)
